@@ -357,6 +357,8 @@ def _r5(ctx):
         ctx.violated(pa, u, "running maximum update is not 'if |x| > max: max = |x|' on one and the same x: it could decrease or "
                      "take a wrong value")
     ps = prog.func(D + "_hcm_process_sample")
+    from ._hcm import require_recognised_dispatch
+    require_recognised_dispatch(ps)
     mem3 = [s for s in walk_function(ps.node) if isinstance(s, ast.If) and any(
         isinstance(c.func, ast.Attribute) and c.func.attr == "_handle_case_a_i" for x in s.body
         if not isinstance(x, (ast.If, ast.While)) for c in calls_in(x))]
